@@ -117,6 +117,16 @@ Definition inwait_p (s : state) : bool :=
                   | _ => true end).
 Lemma inwait_all : forallb inwait_p all_states = true. Proof. vm_compute. reflexivity. Qed.
 
+(* queued on handshakeMutex (or anywhere before its deferred epilogue) a cancellable caller has a live interrupter:
+   once its ctx is cancelled the interrupter can fire, whoever holds the mutex, and that closes the connection *)
+Definition queued_p (s : state) : bool :=
+  implb (invb s && cancellable s && (match p s with P2 | P3 | P4 | P5 | P6 | PUnlIn | PUnlMu | PDefer => true | _ => false end))
+        (negb (is_inone (it s))
+         && (negb (is_iwait (it s) && cancelled s)
+             || match step s LIFire with Some s' => conn_closed s' && is_ifired (it s') | None => false end)
+         && (negb (is_iwait (it s)) || cancelled s || negb (enabledb s LIFire))).
+Lemma queued_all : forallb queued_p all_states = true. Proof. vm_compute. reflexivity. Qed.
+
 (* a returned caller whose own interrupter closed the connection reports its ctx error, and only such a caller does *)
 Definition interrupted_p (s : state) : bool :=
   implb (invb s && returned s)
